@@ -20,8 +20,8 @@ META = {
         "gaftools.gaf": ["Alignment.detect_path_format"],
     },
     "explanation": "Bounded symbolic execution (CrossHair/z3) of the real view.run -> to_stable -> to_unstable chain. "
-    "Layout (rank-0 contig chr1 tiled by 3 segments, haplotype contig hapA with 2 segments separated by a symbolic gap "
-    ">= 0, hapB, second rank-0 contig chr2) has every length and offset symbolic and unbounded; the walk is an "
+    "Layout (rank-0 contig chr1 tiled by 3 segments, haplotype contig hap-A.1 with 2 segments separated by a symbolic gap "
+    ">= 0, hap_B#2, second rank-0 contig chr2) has every length and offset symbolic and unbounded; the walk is an "
     "enumerated sequence of oriented segments; path start/end are symbolic.  Oracle: one more symbolic integer k picks "
     "the k-th aligned base; an independent 10-line function maps (record,k) to (contig, coordinate, orientation) and the "
     "assertion is base(u,k)=base(stable,k)=base(unstable',k), aligned length unchanged, path length = total of the "
@@ -103,9 +103,9 @@ def harnesses(tier):
     direct = [
         {"bare": "chr1", "strand": "+"}, {"bare": "chr1", "strand": "-"}, {"bare": "chr2", "strand": "-"},
         {"iv": [[">", "chr1", 0, 0]]}, {"iv": [["<", "chr1", 1, 2]]}, {"iv": [[">", "chr1", 0, 0], [">", "chr1", 1, 2]]},
-        {"iv": [["<", "chr1", 2, 2], ["<", "chr1", 0, 1]]}, {"iv": [[">", "hapA", 0, 0]]}, {"iv": [[">", "hapA", 0, 1]]},
-        {"iv": [["<", "hapA", 1, 1], [">", "chr1", 1, 1]]}, {"iv": [[">", "chr1", 0, 1], [">", "hapA", 0, 0], [">", "chr1", 2, 2]]},
-        {"iv": [[">", "hapB", 0, 0], ["<", "hapA", 0, 0]]}, {"iv": [[">", "chr1", 0, 2]]}, {"iv": [["<", "chr1", 0, 2]]},
+        {"iv": [["<", "chr1", 2, 2], ["<", "chr1", 0, 1]]}, {"iv": [[">", "hap-A.1", 0, 0]]}, {"iv": [[">", "hap-A.1", 0, 1]]},
+        {"iv": [["<", "hap-A.1", 1, 1], [">", "chr1", 1, 1]]}, {"iv": [[">", "chr1", 0, 1], [">", "hap-A.1", 0, 0], [">", "chr1", 2, 2]]},
+        {"iv": [[">", "hap_B#2", 0, 0], ["<", "hap-A.1", 0, 0]]}, {"iv": [[">", "chr1", 0, 2]]}, {"iv": [["<", "chr1", 0, 2]]},
     ]
     for d in direct:
         hs.append({"id": "direct/" + json.dumps(d, separators=(",", ":")), "params": dict(d, kind="direct"), "timeout": 300,
